@@ -68,10 +68,11 @@ Lemma unsubscribe_all_pinvg b X Sc Sm Sd So Su : forall hs w w',
   unsubscribe_all w hs = (w', None) ->
   pinvg X Sc Sm Sd So Su w' /\ (forall t pos ser l, ~ slot_at w' t pos ser (SNode b l)) /\
   w_props w' = w_props w /\ w_binds w' = w_binds w /\ w_obs w' = w_obs w /\ w_held w' = w_held w /\
-  w_serial w' = w_serial w /\ w_evps w' = w_evps w.
+  w_serial w' = w_serial w /\ w_evps w' = w_evps w /\ (forall t pos ser s, slot_at w' t pos ser s -> slot_at w t pos ser s) /\
+  (forall t sl fr al, tview w t = Some (sl, fr, al) -> exists sl' fr', tview w' t = Some (sl', fr', al)).
 Proof.
   induction hs as [|h r IH]; intros w w' Hinv Hb J K H; cbn [unsubscribe_all] in H.
-  - inversion H; subst. split; [exact Hinv|]. split; [intros t pos ser l Hs; exact (J _ _ _ _ Hs)|]. repeat split.
+  - inversion H; subst. split; [exact Hinv|]. split; [intros t pos ser l Hs; exact (J _ _ _ _ Hs)|]. repeat split; eauto.
   - destruct (unsubscribe w h) as [w1 e] eqn:Hu.
     destruct (unsubscribe_cases _ _ _ _ Hu (pi_dead _ _ _ _ _ _ _ Hinv)) as [(-> & ->)|[(-> & -> & Hno)|(-> & s & Hrem)]].
     + discriminate H.
@@ -84,7 +85,7 @@ Proof.
       assert (Hinv1 : pinvg X Sc Sm Sd So Su w1).
       { eapply pinvg_rem; eauto. intros b' lf (ls & tg & Eb & _) Heq. inversion Heq; subst. congruence. }
       assert (Hb1 : bview w1 b = None) by (rewrite (bview_binds _ _ (re_binds _ _ _ _ _ _ Hrem)); exact Hb).
-      destruct (IH w1 w' Hinv1 Hb1) as (I1 & I2 & I3 & I4 & I5 & I6 & I7 & I8); auto.
+      destruct (IH w1 w' Hinv1 Hb1) as (I1 & I2 & I3 & I4 & I5 & I6 & I7 & I8 & I9 & I10); auto.
       * intros t pos ser l Hs. apply (re_sub _ _ _ _ _ _ Hrem) in Hs. destruct Hs as [Hs Hne].
         destruct (J _ _ _ _ Hs) as [Eh|Hin]; [|exact Hin]. exfalso. apply Hne. subst h. auto.
       * intros h0 t pos s Hin Hs. apply (re_sub _ _ _ _ _ _ Hrem) in Hs. destruct Hs as [Hs _]. eapply K; [right; exact Hin|exact Hs].
@@ -95,6 +96,8 @@ Proof.
         -- rewrite I6. apply (re_held _ _ _ _ _ _ Hrem).
         -- rewrite I7. apply (re_serial _ _ _ _ _ _ Hrem).
         -- rewrite I8. apply (re_evps _ _ _ _ _ _ Hrem).
+        -- intros t pos ser s0 Hs. apply I9 in Hs. apply (re_sub _ _ _ _ _ _ Hrem) in Hs. tauto.
+        -- intros t sl fr al Et. destruct (re_tables _ _ _ _ _ _ Hrem _ _ _ _ Et) as (sl1 & fr1 & Et1). eauto.
 Qed.
 
 Lemma pinvg_slotx (X X' Sc Sm Sd So Su : nat -> Prop) w : pinvg X' Sc Sm Sd So Su w -> SLOTX X w -> pinvg X Sc Sm Sd So Su w.
@@ -106,11 +109,12 @@ Lemma destroy_binding_pinvg (X Sc Sm Sd So Su : nat -> Prop) w b w' :
   bview w' b = None /\ (forall b', b' <> b -> bview w' b' = bview w b') /\
   (forall t pos ser l, ~ slot_at w' t pos ser (SNode b l)) /\
   w_props w' = w_props w /\ w_obs w' = w_obs w /\ w_held w' = w_held w /\ w_serial w' = w_serial w /\
-  length (w_binds w') = length (w_binds w).
+  length (w_binds w') = length (w_binds w) /\ (forall t pos ser s, slot_at w' t pos ser s -> slot_at w t pos ser s) /\
+  (forall t sl fr al, tview w t = Some (sl, fr, al) -> exists sl' fr', tview w' t = Some (sl', fr', al)).
 Proof.
   intros Hinv HX H. unfold destroy_binding in H. destruct (get_bind w b) as [x|] eqn:Hb.
   2:{ inversion H; subst w'. assert (Hbv : bview w b = None) by (unfold bview; rewrite Hb; reflexivity).
-      split; [eapply pinvg_mono; try exact Hinv; auto|]. split; [exact Hbv|]. split; [auto|]. split; [|repeat split].
+      split; [eapply pinvg_mono; try exact Hinv; auto|]. split; [exact Hbv|]. split; [auto|]. split; [|repeat split; eauto].
       intros t pos ser l Hs. destruct (pi_slot _ _ _ _ _ _ _ Hinv _ _ _ _ _ HX Hs) as (lf & (ls & tg & Eb & _) & _). congruence. }
   set (w1 := match nth_error (w_evps w) (b_evp x) with
              | Some ep => set_evps w (upd (w_evps w) (b_evp x) {| ep_registry := filter (fun q => negb (Nat.eqb (fst q) (b_regid x))) (ep_registry ep); ep_next := ep_next ep |})
@@ -133,7 +137,7 @@ Proof.
   assert (Hb2 : bview w2 b = None) by (rewrite Bv2, Nat.eqb_refl; reflexivity).
   assert (S2 : forall t pos ser s, slot_at w2 t pos ser s <-> slot_at w t pos ser s).
   { intros. unfold slot_at. destruct V1 as (_ & T1 & _). change (tview w2 t) with (tview w1 t). rewrite T1. tauto. }
-  destruct (unsubscribe_all_pinvg b _ _ _ _ _ _ (node_handles (b_root x)) w2 w' Hinv2 Hb2) as (I1 & I2 & I3 & I4 & I5 & I6 & I7 & I8); auto.
+  destruct (unsubscribe_all_pinvg b _ _ _ _ _ _ (node_handles (b_root x)) w2 w' Hinv2 Hb2) as (I1 & I2 & I3 & I4 & I5 & I6 & I7 & I8 & I9' & I10'); auto.
   - intros t pos ser l Hs. apply S2 in Hs. destruct (pi_slot _ _ _ _ _ _ _ Hinv _ _ _ _ _ HX Hs) as (lf & (ls & tg & Eb & Hi) & _ & Hh).
     rewrite Hbv in Eb. inversion Eb; subst ls tg. rewrite node_handles_leaves. apply in_flat_map. exists lf. auto.
   - intros h t pos s Hin Hs. apply S2 in Hs. rewrite node_handles_leaves in Hin. apply in_flat_map in Hin. destruct Hin as (lf & Hi & Hh).
@@ -150,7 +154,9 @@ Proof.
                 length (w_binds w2) = length (w_binds w)).
     { unfold w2, put_bind; cbn [set_binds w_binds w_props w_obs w_held w_serial]. rewrite upd_length. unfold w1.
       destruct (nth_error (w_evps w) (b_evp x)); repeat split. }
-    destruct F as (F1 & F2 & F3 & F4 & F5). repeat split; congruence.
+    destruct F as (F1 & F2 & F3 & F4 & F5). repeat split; try congruence.
+    + intros t pos ser s Hs. apply I9' in Hs. apply S2. exact Hs.
+    + intros t sl fr al Et. apply (I10' t sl fr al). destruct V1 as (_ & T1 & _). change (tview w2 t) with (tview w1 t). rewrite T1. exact Et.
 Qed.
 
 Lemma unsubscribe_exn w h w1 e : unsubscribe w h = (w1, Some e) -> e = PxUnmodelled.
@@ -253,7 +259,7 @@ Lemma reset_pinv w q pr b w2 :
   (forall b', b' <> b -> bview w2 b' = bview w b') /\ w_props w2 = w_props w /\ length (w_binds w2) = length (w_binds w).
 Proof.
   intros Hinv Hq Hu Hd.
-  destruct (destroy_binding_pinvg _ _ _ _ _ _ _ _ _ Hinv (fun x => x) Hd) as (I1 & I2 & I3 & I4 & I5 & I6 & I7 & I8 & I9).
+  destruct (destroy_binding_pinvg _ _ _ _ _ _ _ _ _ Hinv (fun x => x) Hd) as (I1 & I2 & I3 & I4 & I5 & I6 & I7 & I8 & I9 & I10 & I11).
   assert (Hq2 : lookup (w_props w2) q = Some pr) by (rewrite I5; exact Hq).
   assert (Pq : pview w q = Some (psigs_of pr)) by (unfold pview; rewrite Hq; reflexivity).
   destruct (pi_upd _ _ _ _ _ _ _ Hinv _ _ _ Pq Hu (fun x => x)) as (lsb & Ebw).
@@ -839,7 +845,7 @@ Section DestroyProp.
       assert (Pv1 : pview w1 p = Some (psigs_of pr)) by (unfold pview; rewrite Hp1'; reflexivity).
       destruct (pr_updater pr) as [b|] eqn:Hub.
       - destruct e2 as [ex|]; [apply destroy_binding_exn in Hu; subst; destruct Hok2|]. split; [reflexivity|].
-        destruct (destroy_binding_pinvg _ _ _ _ _ _ _ _ _ Hinv1 (fun z => z) Hu) as (I1 & I2 & I3 & I4 & I5 & I6 & I7 & I8 & I9).
+        destruct (destroy_binding_pinvg _ _ _ _ _ _ _ _ _ Hinv1 (fun z => z) Hu) as (I1 & I2 & I3 & I4 & I5 & I6 & I7 & I8 & I9 & I10 & I11).
         destruct (pi_upd _ _ _ _ _ _ _ Hinv1 _ _ _ Pv1 Hub (fun z => z)) as (lsb & Eb).
         split; [|split; [|split]].
         + eapply pinvg_mono; [| | | | | |exact I1]; cbv beta; try (intros x Hx; exact Hx); try (intros x Hx; exact (False_ind _ Hx)).
@@ -1168,7 +1174,7 @@ Proof.
             w_props w1 = w_props w /\ w_held w1 = w_held w).
   { intros w1 e1 Hd Hok1. destruct (pr_updater pr) as [old|] eqn:Hu.
     - destruct e1 as [ex|]; [apply destroy_binding_exn in Hd; subst; destruct Hok1|]. split; [reflexivity|].
-      destruct (destroy_binding_pinvg _ _ _ _ _ _ _ _ _ Hinv (fun z => z) Hd) as (I1 & I2 & I3 & I4 & I5 & I6 & I7 & I8 & I9).
+      destruct (destroy_binding_pinvg _ _ _ _ _ _ _ _ _ Hinv (fun z => z) Hd) as (I1 & I2 & I3 & I4 & I5 & I6 & I7 & I8 & I9 & I10 & I11).
       destruct (pi_upd _ _ _ _ _ _ _ Hinv _ _ _ Pv Hu (fun z => z)) as (lso & Eo).
       assert (Hne : b <> old) by (intros ->; congruence).
       split; [|split; [|split; [|split]]]; try assumption.
